@@ -1117,3 +1117,57 @@ def no_order_dependent_iteration_over_sets(qualname):
                            ("the loop over the set `%s` only tests / raises / builds another set" % ast.unparse(it_expr)[:60]) if not ordered else
                            ("the loop over the set `%s` at line %d appends, inserts, accumulates or registers in iteration order: the order of a set of strings depends on the hash seed of the process" % (ast.unparse(it_expr)[:60], it_expr.lineno))))
     return out
+
+
+def time_indexed_access_is_local(qualname):
+    """temporal locality of one integration step (DESIGN 3.3: what C09 "nothing before Y changes" and C10 "a run restarted at Y continues
+    the trajectory" rest on): in a function that works on the current step -- it has a parameter `ti`, or binds a local from
+    `self._t_index` -- every access to time-indexed storage (`.vals[...]`, the time axis of `._vals[row, ...]`, and the item access
+    `x[...]` on `self` or on a name that is elsewhere in the function subscripted by the current step) names the current step: `ti` or a local computed from it only
+    (`tr = ti - 1`).  An access at a fixed index (`vals[0]`) makes the step depend on where the simulation started.
+    Returns [] for functions that do not work on a current step."""
+    fi = source.lookup(qualname)
+    fn = fi.node
+    names = lambda n: {x.id for x in ast.walk(n) if isinstance(x, ast.Name)}
+    T = set()
+    if "ti" in [a.arg for a in fn.args.args]:
+        T.add("ti")
+    for n in ast.walk(fn):
+        if isinstance(n, ast.Assign) and len(n.targets) == 1 and isinstance(n.targets[0], ast.Name) and ast.unparse(n.value) == "self._t_index":
+            T.add(n.targets[0].id)
+    if not T:
+        return []
+    changed = True
+    while changed:
+        changed = False
+        for n in ast.walk(fn):
+            if isinstance(n, ast.Assign) and len(n.targets) == 1 and isinstance(n.targets[0], ast.Name) and n.targets[0].id not in T:
+                nm = names(n.value)
+                if nm and nm <= T:
+                    T.add(n.targets[0].id)
+                    changed = True
+    # names used as model variables: somewhere in the function they are subscripted by the current step (`par[ti]`, Variable.__getitem__)
+    tv_names = {"self"} | {n.value.id for n in ast.walk(fn) if isinstance(n, ast.Subscript) and isinstance(n.value, ast.Name) and (names(n.slice) & T)}
+    bad, n_access = [], 0
+    for node in ast.walk(fn):
+        if not isinstance(node, ast.Subscript):
+            continue
+        v = node.value
+        if isinstance(v, ast.Attribute) and v.attr in ("vals", "_vals"):
+            idx = node.slice
+            if v.attr == "_vals" and isinstance(idx, ast.Tuple) and len(idx.elts) == 2:
+                idx = idx.elts[1]
+            n_access += 1
+            if not (names(idx) & T):
+                bad.append(node)
+        elif isinstance(v, ast.Name) and v.id in tv_names and v.id not in T:
+            if names(node.slice) & T:
+                n_access += 1
+            elif isinstance(node.slice, ast.Constant) and isinstance(node.slice.value, int) and not isinstance(node.slice.value, bool):
+                n_access += 1
+                bad.append(node)
+    if not n_access:
+        return []
+    return [_ob(qualname, "time-indexed-access-is-at-the-current-step", not bad, bad[0].lineno if bad else fn.lineno,
+                ("all %d accesses to time-indexed storage name the current step (%s)" % (n_access, ", ".join(sorted(T)))) if not bad else
+                ("`%s` at line %d reads or writes time-indexed storage at an index that does not depend on the current step (%s): the step then depends on where the simulation started" % (ast.unparse(bad[0]), bad[0].lineno, ", ".join(sorted(T)))))]
